@@ -19,7 +19,7 @@ EXPLANATION = (
     "format chosen per width by partial evaluation of the constructor's threshold chain, size = width//8, the "
     "truncating slice in pack dominated by a raising range guard whose bounds fold to the type's exact range for "
     "every width, unpack pads by exactly (wide size - size) bytes with 0xFF iff the sign bit of the top byte is set; "
-    "R4 struct errors in encode_raw/decode_raw are never swallowed; R5 __len__ = codec size * 8; R6 text codecs; R8 structural assumptions shared by all properties: no class-level mutable object is mutated in place by instances, no method re-runs the constructor, logging statements cannot raise."
+    "R4 struct errors in encode_raw/decode_raw are never swallowed; R5 __len__ = codec size * 8; R6 text codecs; R9 no method of ODVariable caches (cached_property, lru_cache) a result derived from the re-assignable attributes data_type/factor/min/max/descriptions: the codec follows the current data type; R8 structural assumptions shared by all properties: no class-level mutable object is mutated in place by instances, no method re-runs the constructor, logging statements cannot raise."
 )
 ASSUMPTIONS = [
     "CPython struct semantics for standard formats (range checking, exact-size unpack) are the trusted base",
@@ -269,6 +269,20 @@ def run(chk):
             chk.check(str(got["encode_raw"]).lower().replace("-", "_") == str(got["decode_raw"]).lower().replace("-", "_"),
                       "R6", f"{OD}:ODVariable | type 0x{tcode:X} agreement", OD, f"encode uses {got['encode_raw']!r}, decode {got['decode_raw']!r}")
 
+    # ------------------------------------------------------------------ R9 the codec follows the current data_type
+    odv_ = repo.cls(OD, "ODVariable", "C04.R9")
+    n_m = 0
+    for mname, m in sorted(odv_.methods.items()):
+        n_m += 1
+        decos = [dotted(d.func) if isinstance(d, ast.Call) else dotted(d) for d in m.node.decorator_list]
+        cached = [d for d in decos if d and d.split(".")[-1] in ("cached_property", "lru_cache", "cache")]
+        reads = sorted({x.attr for x in ast.walk(m.node) if isinstance(x, ast.Attribute) and isinstance(x.value, ast.Name) and x.value.id == "self" and isinstance(x.ctx, ast.Load)
+                        and x.attr in ("data_type", "factor", "min", "max", "value_descriptions", "bit_definitions")})
+        if cached:
+            chk.check(not reads, "R9", f"{OD}:ODVariable.{mname} | nothing derived from a re-assignable attribute is cached", m.loc(),
+                      f"`@{cached[0]}` freezes a result computed from self.{', self.'.join(reads)}: the attribute is public and re-assigned by importers and users "
+                      "(var.data_type = ...), after which len(), encode_raw() and decode_raw() keep using the old type's codec")
+    chk.floor("R9", n_m, 10, "methods of ODVariable inspected for cached derivations")
     # ------------------------------------------------------------------ R8 instances are independent (shared clause)
     from . import shared as _shared
     _shared.isolation(chk, "R8", rels=['canopen/objectdictionary/__init__.py', 'canopen/objectdictionary/datatypes.py'])
